@@ -578,3 +578,31 @@ func constInt(p *engine.Prog, pkgShort, name string) int64 {
 	}
 	return v
 }
+
+// constFloat resolves a numeric constant of a repo package by name (NaN-free: ok=false if absent).
+func constFloat(p *engine.Prog, pkgShort, name string) (float64, bool) {
+	pk := p.ByPath[engine.RepoMod+"/"+pkgShort]
+	if pk == nil {
+		return 0, false
+	}
+	c, ok := pk.Types.Scope().Lookup(name).(*types.Const)
+	if !ok {
+		return 0, false
+	}
+	v, _ := constant.Float64Val(constant.ToFloat(c.Val()))
+	return v, true
+}
+
+// ssaConstFloat: v is a numeric constant; returns its value.
+func ssaConstFloat(v ssa.Value) (float64, bool) {
+	c, ok := v.(*ssa.Const)
+	if !ok || c.Value == nil {
+		return 0, false
+	}
+	f := constant.ToFloat(c.Value)
+	if f.Kind() != constant.Float {
+		return 0, false
+	}
+	x, _ := constant.Float64Val(f)
+	return x, true
+}
